@@ -667,6 +667,56 @@ def r37(text):
     return text, n
 
 
+@rule("R38", "Definition of Result::unwrap_or_else / Option::unwrap_or_else with a closure: `X.unwrap_or_else(|e| E)` -> `match X { Ok(v_) => v_, Err(e) => E }`; "
+             "`X.unwrap_or_else(|| E)` -> `match X { Some(v_) => v_, None => E }`.")
+def r38(text):
+    n = 0
+    while True:
+        m = re.search(r"\.\s*unwrap_or_else\(\s*\|\s*(\w*)\s*\|", text)
+        if not m:
+            break
+        o = text.index("(", m.start())
+        toks = tokenize(text[o:])
+        c = o + toks[match_close(toks, 0)].start
+        inner = text[m.end():c].strip()
+        rs = _receiver_start(text, m.start())
+        recv = text[rs:m.start()].rstrip()
+        if m.group(1):
+            rep = "(match %s { Ok(v_) => v_, Err(%s) => %s })" % (recv, m.group(1), inner)
+        else:
+            rep = "(match %s { Some(v_) => v_, None => %s })" % (recv, inner)
+        old = text[rs:c + 1]
+        rep = rep + "\n" * max(0, old.count("\n") - rep.count("\n"))
+        text = text[:rs] + rep + text[c + 1:]
+        n += 1
+    return text, n
+
+
+@rule("R39", "Definition of Option::map_or with a closure: `X.map_or(D, |p| E)` -> `match X { Some(p) => E, None => D }`.")
+def r39(text):
+    n = 0
+    while True:
+        m = re.search(r"\.\s*map_or\(", text)
+        if not m:
+            break
+        o = m.end() - 1
+        toks = tokenize(text[o:])
+        c = o + toks[match_close(toks, 0)].start
+        inner = text[o + 1:c]
+        mm = re.match(r"(.*?),\s*\|\s*(\w+)\s*\|\s*(.*)$", inner, re.S)
+        if not mm:
+            text = text[:m.start()] + ".map_or_\x00(" + text[m.end():]   # not a closure form: leave (marker removed below)
+            continue
+        rs = _receiver_start(text, m.start())
+        recv = text[rs:m.start()].rstrip()
+        rep = "(match %s { Some(%s) => %s, None => %s })" % (recv, mm.group(2), mm.group(3).strip(), mm.group(1).strip())
+        old = text[rs:c + 1]
+        rep = rep + "\n" * max(0, old.count("\n") - rep.count("\n"))
+        text = text[:rs] + rep + text[c + 1:]
+        n += 1
+    return text.replace(".map_or_\x00(", ".map_or("), n
+
+
 @rule("R31", "`S.split_at(mid)` -> `slice_split_at(S, mid)`: verified definitional implementation whose precondition "
              "`mid <= len` is the panic condition of the std function.")
 def r31(text):
